@@ -16,7 +16,7 @@ Ivs == {Bytes(16, 0, 0), Bytes(16, 29, 13)}
 \* passwords as code points (the API takes text); ASCII classes, then Latin-1 and beyond
 PwAscii == {<<>>, <<97>>, <<117, 115, 101, 114>>, <<112, 40, 119, 41, 92>>,
             [i \in 1..31 |-> 65 + (i % 26)], [i \in 1..32 |-> 65 + (i % 26)], [i \in 1..33 |-> 65 + (i % 26)], [i \in 1..40 |-> 48 + (i % 10)]}
-PwLatin1 == {<<233>>, <<112, 228, 223>>}
+PwLatin1 == {<<233>>, <<112, 228, 223>>, [i \in 1..36 |-> IF i = 32 THEN 233 ELSE 97]}     \* the last: byte 32 of the UTF-8 form falls inside a character
 PwWide == {<<20013, 25991>>, <<128512, 97>>}
 PwLong == {[i \in 1..127 |-> 33 + (i % 90)]}
 
